@@ -273,9 +273,6 @@ class CoordinateComponent(Component):
             # of the pixel coordinates are the pixel coordinates themselves.
             if isinstance(view, (tuple, list)) and isinstance(view[0], np.ndarray):
                 axis = self._data.ndim - 1 - self.axis
-                # negative indices count from the end of each dimension
-                view = [np.where(np.asarray(v) < 0, np.asarray(v) + n, v)
-                        for v, n in zip(view, self._data.shape)]
                 return pixel2world_single_axis(self._data.coords, *view[::-1],
                                                world_axis=axis)
 
@@ -373,6 +370,13 @@ class CoordinateComponent(Component):
         return len(self._data.shape)
 
     def __getitem__(self, key):
+        if (self.world and isinstance(key, (tuple, list)) and len(key) > 0 and
+                all(isinstance(k, np.ndarray) and k.dtype.kind in 'iu' for k in key)):
+            # For a view made of integer index arrays, negative indices count
+            # from the end of each dimension. Note that this needs to be done
+            # here rather than in _calculate, which is also called directly
+            # with (possibly negative) pixel positions rather than indices.
+            key = tuple(np.where(k < 0, k + n, k) for k, n in zip(key, self._data.shape))
         return self._calculate(key)
 
     def __lt__(self, other):
